@@ -167,7 +167,7 @@ func (c *Ctx) judgeWrites(rule string, fn *ssa.Function, prot func(*own.Effect) 
 
 func init() {
 	register(&Property{ID: "C15", Run: runC15, Meta: report.Meta{ID: "C15",
-		Explanation: "DECIDED (for all operation histories at once): no exported operation of package data writes memory reachable from its receiver or arguments, every write in the package goes to storage allocated in the same activation (R15a); no exported operation hands out a raw slice/map that aliases internal storage (R15b); nothing in the library writes through the shared EmptyIntSet/EmptyIntMap (R15c). This is the 'never mutated in place' half of the property and a necessary condition of it. R15d (value half, one structural clause): no map entry in package data is written under a condition on a value read from a map — clone/Inc/Filter decide by key membership only, as a plain map model does. NOT DECIDED: that each operation returns the value a set/map model gives, ascending order, absence of duplicates (run-time values).",
+		Explanation: "DECIDED (for all operation histories at once): no exported operation of package data writes memory reachable from its receiver or arguments, every write in the package goes to storage allocated in the same activation (R15a); no exported operation hands out a raw slice/map that aliases internal storage (R15b); nothing in the library writes through the shared EmptyIntSet/EmptyIntMap (R15c). This is the 'never mutated in place' half of the property and a necessary condition of it. R15d (value half, one structural clause): no map entry in package data is written under a condition on a value read from a map — clone/Inc/Filter decide by key membership only, as a plain map model does; R15e no copy() targets a slice just made with length 0; R15f an index returned by sort.Search* is never taken for membership without comparing the element found. NOT DECIDED: that each operation returns the value a set/map model gives, ascending order, absence of duplicates (run-time values).",
 		Assumptions: commonAssumptions, TrustedBase: commonTrusted}})
 }
 
